@@ -148,6 +148,8 @@ def text_job(j):
             return
         if len(st["cases"]) < j["max_cases"]:
             st["cases"].append(rec)
+        elif len(st["cases"]) >= j["max_cases"]:
+            raise StopIteration
     res = tlc.run("MC_exec.tla", "MC_exec_sim.cfg", on_line=on_line, workers=1, simulate=j["behaviours"], depth=40, seed=j["seed"], timeout=1500)
     w = st["world"]
     engines = [w.engine({"tag": "txt-count", "coercer": counting_coercer}), w.engine({"tag": "txt-tag", "coercer": tagging_coercer}),
@@ -207,7 +209,50 @@ def text_job(j):
             "extra": {"texts_rejected_by_parser": nbroken, "texts_parsed": len(records) - nbroken}}
 
 
+def faults_job(j):
+    """valid requests with failing resolvers (incl. library errors carrying extensions): the envelope of field errors"""
+    st = {"world": None, "cases": []}
+
+    def on_line(rec):
+        if rec["kind"] == "schema":
+            if st["world"] is None:
+                st["world"] = World(rec["types"], rec["roots"])
+            return
+        if len(st["cases"]) < j["max_cases"]:
+            st["cases"].append(rec)
+        elif len(st["cases"]) >= j["max_cases"]:
+            raise StopIteration
+    res = tlc.run("MC_faults.tla", "MC_faults_sim.cfg", on_line=on_line, workers=1, simulate=j["behaviours"], depth=40, seed=j["seed"], timeout=1500)
+    w = st["world"]
+    engines = [w.engine({"tag": "flt-count", "coercer": counting_coercer}), w.engine({"tag": "flt-seq", "coercer": counting_coercer, "list_conc": False, "field_parent_conc": False})]
+    records, meta = [], {}
+    for tid, case in enumerate(st["cases"], 1):
+        doc = render.DocText(case["nodes"], layout=tid % 2)
+        cs = CaseState(table_of(case["calls"]))
+        cs.ctx = {"__cs": cs}
+        STATE["n"] = 0
+        STATE["returned"] = []
+        try:
+            resp = main_loop().run(engines[tid % 2].execute(doc.text, operation_name=execreplay.op_name(case), context=cs.ctx, variables=variables_py(case["given"])))
+        except BaseException as e:
+            resp = {"__raised__": repr(e)}
+        records.append({"tid": tid, "nodes": case["nodes"], "op": case["op"], "vars": case["cvars"], "cls": "exec", "geom": project.geometry(doc.text),
+                        "resp": project.response(resp), "ncalls": len(cs.calls), "coercerCalls": STATE["n"]})
+        meta[tid] = {"query": doc.text, "faults": case["overlay"], "response": repr(resp)[:1200]}
+    verdicts, tres = tracecheck.judge("Trace_resp.tla", "Trace_resp.cfg", records)
+    viol = []
+    for r in records:
+        ok, clause = verdicts[r["tid"]]
+        if not ok and len(viol) < 400:
+            genrun.add_viol(viol, ({"kind": "trace-rejected", "clause": clause, "class": "faulty-exec"}, {"record": r, "meta": meta[r["tid"]]}))
+    return {"job": j, "tlc": [genrun.tlc_summary("MC_faults_sim.cfg(simulate seed=%d)" % j["seed"], res, exhaustive=False), genrun.tlc_summary("Trace_resp.cfg", tres)],
+            "evaluations": len(records), "traces": len(records), "distinct": [hash(meta[t]["query"] + repr(meta[t]["faults"])) for t in meta],
+            "samples": [meta[t] for t in list(meta)[2:3]], "violations": viol, "extra": {"faulty_requests": len(records)}}
+
+
 def job(j):
+    if j["kind"] == "faults":
+        return faults_job(j)
     return matrix_job(j) if j["kind"] == "matrix" else text_job(j)
 
 
@@ -221,6 +266,7 @@ def main(argv):
     n = 16 if thorough else 6
     jobs = [{"kind": "matrix"}] + [{"kind": "text", "seed": common.seed() * 100 + k + 1, "behaviours": 800 if thorough else 300,
                                     "max_cases": 400 if thorough else 120, "per_seed": 40 if thorough else 15} for k in range(n)]
+    jobs += [{"kind": "faults", "seed": common.seed() * 100 + 91 + k, "behaviours": 1500 if thorough else 500, "max_cases": 1500 if thorough else 300} for k in range(4 if thorough else 2)]
     results = genrun.run_jobs("checks.c18", "job", jobs)
     bad = genrun.merge(rep, results)
     rep.exhaustive = False
